@@ -709,6 +709,34 @@ services:
     <<: *common
 `
 
+// attributes that are present but empty: "set to nothing" is not "not set"
+const corpusEmpties = `
+services:
+  e:
+    image: e
+    entrypoint: ""
+    command: []
+    environment: {}
+    labels: []
+    healthcheck: {disable: true}
+    dns: []
+    profiles: []
+    cap_drop: []
+    ports: []
+    volumes: []
+    user: ""
+    working_dir: ""
+  f:
+    image: f
+    entrypoint: []
+    command: ""
+    environment: []
+    labels: {}
+    depends_on: []
+    networks: {}
+    network_mode: none
+`
+
 // deprecated spellings that the loader still accepts (and warns about once)
 const corpusLegacy = `
 version: "3.8"
@@ -803,6 +831,7 @@ func CorpusScns() map[string]*Scn {
 		"env-chain":     {Files: files("compose.yaml", corpusEnvChain, "a.env", "HOST=host-a\n", "b.env", "HOST=host-b\n", "shared.env", "URL=http://${HOST}/\nPLAIN=p\n"), Main: []string{"compose.yaml"}},
 		"restated":      {Files: files("compose.yaml", corpusRestated, "s", "sec", "e.env", "E=1\n"), Main: []string{"compose.yaml"}},
 		"anchor-tags":   {Files: files("compose.yaml", corpusAnchorTagsBase, "over.yaml", corpusAnchorTagsOver), Main: []string{"compose.yaml", "over.yaml"}},
+		"empties":       {Files: files("compose.yaml", corpusEmpties), Main: []string{"compose.yaml"}},
 		"legacy":        {Files: files("compose.yaml", corpusLegacy), Main: []string{"compose.yaml"}},
 		"operators":     {Files: files("compose.yaml", corpusOperators), Main: []string{"compose.yaml"}, Env: map[string]string{"SET": "set", "EMPTY": ""}},
 		"profiles":      {Files: files("compose.yaml", corpusProfiles), Main: []string{"compose.yaml"}},
